@@ -62,10 +62,15 @@ BODIES = [
     ("chained_cmp", 1, ["return 0 <= call_next(x)[1] < 3 and recurse(x - 1) if x > 0 else call_next(x)"]),
     ("unary_binop", 1, ["return -call_next(x)[1] + (recurse(x - 1)[1] if x > 0 and isinstance(recurse(x - 1), tuple) else 0) * 2"]),
     ("nested_two", 2, ["if x > 0 and y > 0:", "    return recurse(x - 1, call_next(y - 1, x)[1])", "return call_next(x, y)"]),
+    ("closure_multiline_string", 1, ['s = """a', '        b"""', "return (s, recurse(x - K)) if x >= K else (s, call_next(x))"]),
+    ("param_named_type", 2, ["type = y", "if x > 0:", "    return ('A', recurse(x - 1, type))", "return call_next(x, type)"]),
     ("closure_two", 1, ["return (K - J, recurse(x - K)) if x >= K else call_next(x + J)"]),
     ("kwonly_order", "kw", ["if x > 0:", "    return recurse(x - 1, b=tick(('b', x)), a=tick(('a', x)))", "return call_next(x, b=tick('nb'), a=tick('na'))"]),
     ("recurse_and_self", 1, ["if x > 1:", "    return (recurse(x - 1), F(x - 2))", "return call_next(x)"]),
     ("raises_at_site", 1, ["v = call_next(x)", "if x == 2:", "    return recurse(x, x)", "", "", "if x == 3:", "    return (v,", "            call_next(x, v))", "return v"]),
+    # a plain-name argument is rebound while a LATER argument is evaluated: the earlier argument keeps the value it had
+    ("rebind_walrus", 2, ["if x > 0:", "    return ('A', recurse(y, (y := x - 1)))", "return call_next(x, y)"]),
+    ("rebind_nonlocal", 2, ["def bump():", "    nonlocal x", "    x += 10", "    return y", "return ('A', call_next(x, bump()))"]),
     ("self_then_recurse", 1, ["if x > 1:", "    return (F(x - 2), recurse(x - 1))", "return call_next(x)"]),
     ("first_class_value", 1, ["return list(map(recurse, range(x))) + [call_next(x)]"]),
     ("star_arguments", 1, ["if x > 0:", "    return ('A', recurse(*[x - 1]))", "return call_next(x)"]),
@@ -111,7 +116,9 @@ def module_for(name, npos, body, tier):
     else:
         L.append("def REF(x, **kw):\n    if _isint(x):\n        return A_ref(x, **kw)\n    if isinstance(x, str):\n        return S(x, **kw)\n    return C(x, **kw)\n")
         L.append("def NEXT_A(x, **kw):\n    if _isint(x):\n        return B(x, **kw)\n    return REF(x, **kw)\n")
-    L.append("_src = textwrap.dedent(inspect.getsource(A))\n_ns = dict(recurse=REF, call_next=NEXT_A, F=REF, tick=tick, DFLT=DFLT, K=2, J=7)\n"
+    # (the reference must see the source text exactly as written: an indented definition is wrapped in a block instead of being dedented,
+    # which would also alter the continuation lines of multi-line string literals)
+    L.append("_raw = inspect.getsource(A)\n_REF_OFF = 2 if _raw[:1] in ' \\t' else 1\n_src = ('if True:\\n' + _raw) if _REF_OFF == 2 else _raw\n_ns = dict(recurse=REF, call_next=NEXT_A, F=REF, tick=tick, DFLT=DFLT, K=2, J=7)\n"
              "exec(compile(_src, '<reference>', 'exec'), _ns)\nA_ref = _ns['A']\n")
     L.append('''
 def _run(fn, *args):
@@ -131,7 +138,7 @@ def _run(fn, *args):
             co = tb.tb_frame.f_code
             base = co.co_name.split(".")[-1]
             if co.co_filename == "<reference>" and base == "A":
-                where = ("line", tb.tb_lineno - 1)
+                where = ("line", tb.tb_lineno - _REF_OFF)
             elif base.startswith("A[int"):
                 # the rewritten method must report the original file and the original (absolute) line
                 where = ("line", tb.tb_lineno - A.__code__.co_firstlineno) if co.co_filename == __file__ else ("wrong file", co.co_filename)
